@@ -602,6 +602,7 @@ public:
             seed = sim::mix(sim::mix(o.seed, "C03-base"), (uint64_t)base);
         }
         sim::Rng g(seed);
+        bool late = false;
         if (o.prop == "C04" && o.get("planner").empty() && index % 3 == 2)
             return genSolset(g);
         if (o.prop == "C17")
@@ -651,6 +652,7 @@ public:
         static const char *nns[] = {"", "", "gnat", "gnat_nts", "linear", "sqrt"};
         plan["nn"] = g.pick(nns);
         plan["ompl_seed"] = (long)g.range(1, 2000000000);
+        late = true;
         Json obj = Json::object();
         if (o.prop == "C04")
         {
@@ -803,6 +805,9 @@ public:
             }
         }
         plan["ops"] = ops;
+        // (drawn last) the resolution is set after the space information's first setup()
+        if (late && g.chance(0.3))
+            plan["world"]["late_resolution"] = true;
         return plan;
     }
 
